@@ -11,7 +11,13 @@ SETS = [set(), {'lin'}, {'p3'}, {'l2'}, {'l1'}, {'bd'}]
 
 def consts(K, steps, closing):
     return dict(NS='2', K=tla(K), SetChoices='{' + ', '.join(tla(s) for s in SETS) + '}', RuleCacheFixed=tla(FLAGS['RuleCacheFixed']),
-                MaxSteps=tla(steps), Closing=tla(closing))
+                MaxSteps=tla(steps), Closing=tla(closing), Script='<<>>')
+
+
+def two_supports(r):
+    """two constraints in the model that are protected by DIFFERENT supports (one of them its own)"""
+    acts = [h['act'] for h in r['hist']]
+    return 'ownset' in acts and acts.count('st') >= 2
 
 
 def run(rep, tier, props):
@@ -35,11 +41,17 @@ def run(rep, tier, props):
         rep.extra['drolifecycle_rulecache_violated_on_transcription'] = res['violated']
         for (K, steps, n) in ((2, 8, nsim // 2), (2, 10, nsim // 2)):
             res = tlc.run_tlc(tlc.make_model('DroLifecycle', sc, constants=consts(K, steps, True), invariants=['ExportEnd']), sc, workers=1, coverage=False,
-                              simulate='num=%d' % (n * 3), depth=steps + 1, seed=rep.seed + steps, timeout=1200)
+                              simulate='num=%d' % (n * 40), depth=steps + 1, seed=rep.seed + steps, timeout=1200)
             tlc.require_ok(res, 'DroLifecycle simulate')
             rep.add_tlc('DroLifecycle[simulate depth=%d closing]' % steps, res)
             seen, got = set(), 0
-            for r in res['exports']:
+
+            ranked = sorted(res['exports'], key=lambda r: 0 if two_supports(r) else 1)      # stable: walk order inside each class
+            npat = sum(1 for r in ranked if two_supports(r) and r['formulable'])
+            rep.extra['drolifecycle_two_support_histories'] = rep.extra.get('drolifecycle_two_support_histories', 0) + min(npat, n // 2)
+            for idx_, r in enumerate(ranked):
+                if two_supports(r) and got >= n // 2:
+                    continue
                 key = json.dumps(r['hist'], sort_keys=True)
                 if key in seen or not r['formulable']:
                     continue
@@ -48,6 +60,22 @@ def run(rep, tier, props):
                 got += 1
                 if got >= n:
                     break
+        # focused, exhaustive: the canonical opening, then every order of {own support, adaptation, st of both constraints,
+        # a changed support}, a solve - two constraints protected by DIFFERENT supports in every possible order
+        body = {'ownset', 'adapt', 'st', 'suppset'}
+        script = [{'dvar'}, {'ambiguity'}, {'suppset'}, {'minsup'}, body, body, body, body | {'solve'}, {'solve', 'st'}, {'solve'}]
+        cfoc = consts(2, len(script), False)
+        cfoc['Script'] = '<<' + ', '.join(tla(a) for a in script) + '>>'
+        cfoc['SetChoices'] = '{' + ', '.join(tla(x) for x in ({'lin'}, {'l1'})) + '}'
+        res = tlc.run_tlc(tlc.make_model('DroLifecycle', sc, constants=cfoc, invariants=['ExportEnd']), sc, workers=8, coverage=False, timeout=1800,
+                          export_sample=(nsim // 2, rep.seed + 3, lambda r: False if (two_supports(r) and r['formulable']) else None))
+        tlc.require_ok(res, 'DroLifecycle focused')
+        rep.add_tlc('DroLifecycle[focused: scripted opening, every order of own support / adaptation / st / changed support]', res)
+        if len(res['exports']) < 20:
+            raise tlc.MachineryError('DroLifecycle: only %d focused two-support histories' % len(res['exports']))
+        for r in res['exports']:
+            jobs.append(dict(rec=r, K=2, NS=2))
+        rep.extra['drolifecycle_two_support_histories'] = rep.extra.get('drolifecycle_two_support_histories', 0) + len(res['exports'])
     results = core.pmap('harness.replay_drolifecycle', 'replay', jobs, chunksize=4)
     bad = core.machinery_failures(results)
     if bad:
